@@ -19,7 +19,7 @@ def plan(tier, seed):
     parts = []
     for drv in ("h5", "ih5"):
         for first in range(len(HC.ACTIONS)):
-            parts.append(Part("vt.harness.cont", "seq", {"drv": drv, "k": k, "first": first, "init": first % 2, "c20": 1}, 900 if tier == "quick" else 8000, 300,
+            parts.append(Part("vt.harness.cont", "seq", {"drv": drv, "k": (k if drv == "h5" else 2), "first": first, "init": first % 2, "c20": 1}, 900 if tier == "quick" else 8000, 300,
                               "schema/package records exactly for schemas in use; embedded schema, parent chain, provider == plugin system; objects validate against the embedded schema; same after reopen"))
     import vt.contactions as _CA
     for sel in _CA.mirror_sels():
